@@ -83,10 +83,27 @@ class Holder:
             return r
         return None
 
-    def flag_owner(self, fn, n):
+    def flag_owner(self, fn, n, depth=0):
         r, rest = self._root(fn, n)
         if r and rest == (self.cfg["flag"],):
             return r
+        # a once-initialised local that holds a copy of the flag / error code (`E e = other.e_;`) stands for it, as long
+        # as nothing between the copy and the use can change the flag it was taken from
+        x = std_unwrap(n)
+        if x.kind == "DeclRefExpr" and x.get("local") and x.get("dk") == "Var" and depth < 3:
+            did = x.d["d"]
+            init = RA.local_inits(fn).get(did)
+            if init is not None and not RA._reassigned(fn, did):
+                o = self.flag_owner(fn, init, depth + 1)
+                if o == "other":
+                    return o
+                if o == "this":
+                    decl = [m for m in fn.events() if m.kind == "DeclStmt" and any(d.get("d") == did for d in m.get("decls", []))]
+                    for e in fn.events():
+                        w = write_of(e)
+                        if w and w[0] == ("this", self.cfg["flag"]) and decl and fn.reaches(decl[0].id, e.id) and fn.reaches(e.id, x.id):
+                            return None
+                    return o
         return None
 
     # ---- condition atoms -------------------------------------------------------------------------
@@ -431,6 +448,9 @@ def check_holders(ctx, unit, classes):
                         and path(n.child("obj")) == ("this",)]
                 reads = [n for n in f.events() if n.is_call() and H.storage_owner(f, n) == "other"]
                 reads += [n for n in f.events() if n.kind == "MemberExpr" and H.storage_owner(f, n) == "other"]
+                # any other member of the source (its engaged flag / error code) is a read of the source as well
+                reads += [n for n in f.events() if n.kind == "MemberExpr" and n.get("mk") == "Field" and n.children
+                          and std_unwrap(n.children[0]).kind == "DeclRefExpr" and std_unwrap(n.children[0]).d.get("d") == p0["d"]]
                 for d_ in dts:
                     for r_ in reads:
                         if f.reaches(d_.id, r_.id):
